@@ -14,18 +14,19 @@ from ..effects import Resolver
 from .. import flow
 from .. import pdrules
 
-LEVEL_TEXT = ("static analysis: (D1+D2) skgenome.intersect.idx_ranges is abstractly interpreted, through the real bodies of "
-              "_irange_simple / _irange_nested, on a table whose start / end columns are symbolic sorted-column objects: every "
-              "searchsorted(q, side) becomes the count #{col < q} / #{col <= q}, position slices and boolean masks are normalised to "
-              "the set of row predicates they select, and for every combination of mode (outer, inner) x starts given/None x ends "
-              "given/None x ends monotone / nested that set must equal the half-open predicates (outer: end > qs and start < qe; "
-              "inner: start >= qs and end <= qe); a result obtained by bisecting the `end` column when ends are not monotone is a "
-              "violation (rows nested in a longer row would be lost); (D3) positions from idx_ranges are consumed by .iloc only, "
-              "index labels from iter_slices by .loc / Series getitem only; (D4) every return of into_ranges is a Series (never the "
-              "`dest` frame), built from iter_slices(source, dest, 'outer', keep_empty=True), and the per-range value is default / the "
-              "value / summary(str -> join_strings, float -> nanmedian, else first_of, non-callable -> constant); (D5) trim mode clips "
-              "start from below by the query start and end from above by the query end on a copy, other modes return rows unchanged. "
-              "Does not decide the row sets of arbitrary tables beyond predicate/side agreement (start column sorted is the premise).")
+LEVEL_TEXT = ('static analysis: (D1+D2) skgenome.intersect.idx_ranges is abstractly interpreted, through the real bodies of _irange_simple / '
+              '_irange_nested, on a table whose start / end columns are symbolic sorted-column objects: every searchsorted(q, side) becomes the '
+              'count #{col < q} / #{col <= q}, position slices and boolean masks are normalised to the set of row predicates they select, and for'
+              ' every combination of mode (outer, inner) x starts given/None x ends given/None x ends monotone / nested that set must equal the '
+              'half-open predicates (outer: end > qs and start < qe; inner: start >= qs and end <= qe); a result obtained by bisecting the `end` '
+              'column when ends are not monotone is a violation (rows nested in a longer row would be lost); (D3) positions from idx_ranges are '
+              'consumed by .iloc only, index labels from iter_slices by .loc / Series getitem only; (D4) every return of into_ranges is a Series '
+              "(never the `dest` frame), built from iter_slices(source, dest, 'outer', keep_empty=True), and the per-range value is default / the"
+              ' value / summary(str -> join_strings, float -> nanmedian, else first_of, non-callable -> constant); (D5) trim mode clips start '
+              'from below by the query start and end from above by the query end on a copy, other modes return rows unchanged; (D6) '
+              'by_shared_chroms interpreted on 84 literal table pairs: every chromosome of the query table is paired with exactly the other '
+              "table's rows on that chromosome, or with nothing (kept iff keep_empty). Does not decide the row sets of arbitrary tables beyond "
+              'predicate/side agreement (start column sorted is the premise).')
 TECHNIQUE = "abstract interpretation with symbolic sorted columns (searchsorted as counting atoms, masks as predicate sets); index-kind lint; return-kind rule"
 
 IDX = "skgenome.intersect.idx_ranges"
